@@ -1,10 +1,10 @@
 """C04 — parallel adaptation is as safe as serial; the gathered output has every vertex and cell exactly once."""
-from . import cli, streams_par
+from . import cli, streams_par, streams_subdiv
 
 ID = 'C04'
-PROPS_MODULE = ['Refine.Props.C04']
+PROPS_MODULE = ['Refine.Props.C04', 'Refine.Props.C13Subdiv']
 STREAMS = [streams_par.GUARDS, streams_par.GATHER_NODE, streams_par.GATHER_CELL, streams_par.GATHER_FILE,
-           streams_par.ADAPT_ALL_NP,
+           streams_par.ADAPT_ALL_NP, streams_subdiv.FN,
            cli.ADAPT_MPI, cli.ADAPT_MPI_WIDE]
 # the all-np stream already covers np = 2,3,4 in the quick tier; the two wider cli streams run in the thorough tier
 cli.ADAPT_MPI.thorough_only = True
@@ -31,15 +31,22 @@ EXPLANATION = (
     'owners). End to end (no model side): refmpi adapt at np = 1,2,3,4,5,8 '
     'with every available partitioner, REF_VERIF_PARTITIONER_FULL, both alltoallv implementations and small reduce '
     'limits; exit status, a wall-time bound per run, and the C01 validity (no unused or duplicated vertex, no '
-    'duplicated cell, conformity, positive volumes) and C02 domain oracles on the gathered output.')
+    'duplicated cell, conformity, positive volumes) and C02 domain oracles on the gathered output. '
+    '(d) ref_subdiv, which splits the edges whose cells span partitions: the refinement of a tet face is the triangle '
+    'template of the face\'s side marks only - it does not depend on which tet, local vertex order or rank the face '
+    'is seen from and reverses with the face (subdiv_tet_conforming, subdiv_face_reverse, subdiv_face_rotate, '
+    'tet_face_marks), and children keep orientation and total volume (subdiv_tet_volume, subdiv_tet_orientation); '
+    'tied serially by stream subdiv_fn (see C13).')
 ASSUMPTIONS = [
     'the ranks agree on part for every node they both store (distInv clause; ghost part refresh is package dist / C06)',
     'the kernels modify only cells of the set named in the guard theorems (split/swap: cells containing both edge '
     'nodes; collapse: cells around node0 or node1; smooth: the ball) - tied by C13/C01 streams, not proved here',
     'ref_collapse_edge_local_cell does not test the edg group: an edg cell around the collapsed node is assumed to be '
     'a side of a tested triangle',
-    'cavity PARTITION_CONSTRAINED transitions, ref_subdiv split templates across parts, ref_migrate_to_balance and '
-    'ref_grid_pack are covered only by the end-to-end adapt streams (and package dist), not by theorems here',
+    'cavity PARTITION_CONSTRAINED transitions, ref_migrate_to_balance and ref_grid_pack are covered only by the '
+    'end-to-end adapt streams (and package dist), not by theorems here; ref_subdiv: the templates are proved consistent '
+    'across a shared face given equal marks on the shared edges - that the ranks do hold equal marks and the same new '
+    'vertex per edge after ref_edge_ghost_int / _ghost_min_int / ref_subdiv_new_node is NOT modelled (end-to-end only)',
     'deadlock freedom is tested (wall-time bound on every MPI run), not proved; no_wildcard_receive removes message '
     'races as a source of schedule dependence',
     'hit counts are modelled as Nat; the C adds the doubles 0.0 / 1.0 (exact below 2^53 ranks)',
